@@ -412,6 +412,274 @@ def mutate_lines(lines, rng):
     return "blank_or_continuation", lines
 
 
+# ---------------------------------------------------------------------------------------------
+# one zone object shared by several threads: every answer == the single-threaded (stateless model)
+# answer == tzstr's
+
+class SchedLock(object):
+    """The zone's own _cache_lock plus a scheduling hook: right before an acquire and right after a
+    release another thread may run a complete lookup (deterministic, from the run's PRNG).  These
+    are all the interleavings at lock granularity of the lookups of two threads."""
+
+    def __init__(self, real, hook, events=None):
+        self.real, self.hook, self.busy, self.events = real, hook, False, events
+
+    def _other(self, where):
+        if self.busy or self.hook is None:
+            return
+        self.busy = True
+        try:
+            import threading
+            t = threading.Thread(target=self.hook, args=(where,))
+            t.start()
+            t.join(30)
+        finally:
+            self.busy = False
+
+    def acquire(self, *a, **kw):
+        self._other("before_acquire")
+        got = self.real.acquire(*a, **kw)
+        if self.events is not None:
+            import threading
+            self.events.append(("acq", threading.get_ident()))
+        return got
+
+    def release(self):
+        self.real.release()
+        self._other("after_release")
+
+    def __enter__(self):
+        self.acquire()
+        return self
+
+    def __exit__(self, *exc):
+        self.release()
+
+
+def check_threads(verdict, st, o, r, rng, idx, tier):
+    """forced interleavings + a short free-running stress on ONE shared tzical zone object"""
+    import threading
+    from dateutil import tz
+    enc = P.enc_posix(r)
+    ds = r["dst"]
+    g = o.call(P.E_GUARDS, enc)
+    full_guard = bool(g[0]) and bool(g[1]) and bool(g[2]) and r["name"] not in ("GMT", "UTC")
+    years = list(range(Y0, Y0 + NYEARS_MODEL))
+    dl, sd = local_onsets(o, r, years)
+    order = "daylight_first" if idx % 2 else "standard_first"
+    lines = vtimezone(r, dl, sd, "rdate", order, rng)
+    text = "\r\n".join(lines) + "\r\n"
+    ec = enc_comps(model_comps(r, dl, sd, order))
+    # wall readings: around the events of two years, both folds, plus mid-season readings
+    pool = []
+    for y in (Y0 + 3, Y0 + 4):
+        s, e = o.call(P.E_EVENTS, enc + [y])
+        for ev, off in ((s, r["off"]), (e, ds["off"])):
+            for d in (-5400, -1800, -1, 0, 1800, 5400, 40 * 86400, -40 * 86400):
+                pool.append((ev + off + d, 0))
+                pool.append((ev + off + d, 1))
+    pool = sorted(set(pool))
+    expected = P.dec_wall_batch(o.call(P.E_ICAL_WALL, ec + [x for wf in pool for x in wf]), len(pool),
+                                zone_status=False)
+    exp = dict(zip(pool, expected))
+    zs = None
+    if full_guard:
+        try:
+            zs = tz.tzstr("".join(chr(c) for c in o.call(P.E_RENDER, enc)))
+        except Exception:
+            zs = None
+    bad = []
+
+    def ask(z, q, who):
+        got = P.impl_obs_wall(z, q[0], q[1])
+        st.evals += 1
+        if got != exp[q] and len(bad) < 3:
+            bad.append({"query": q, "wall_iso": P.dt_of(q[0]).isoformat(), "impl": got, "single_threaded": exp[q],
+                        "tzstr_impl": None if zs is None else P.impl_obs_wall(zs, q[0], q[1]), "who": who})
+
+    # (1) forced interleavings at lock granularity
+    z = build_ical(text)[0].get()
+    sched = C.rng("C17/threads/%d" % idx)
+
+    def hook(where):
+        if sched.random() < 0.5:
+            ask(z, pool[sched.randrange(len(pool))], "second thread, " + where)
+    events = []
+    z._cache_lock = SchedLock(z._cache_lock, hook, events)
+    orig_find = z._find_comp
+
+    def logged_find(dt):
+        tid = threading.get_ident()
+        nv = dt.replace(tzinfo=None)
+        events.append(("start", tid, (P.secs_of(nv), getattr(dt, "fold", 0))))
+        c = orig_find(dt)
+        events.append(("end", tid, [i for i, x in enumerate(z._comps) if x is c][0]))
+        return c
+    z._find_comp = logged_find
+    seq = [pool[sched.randrange(len(pool))] for _ in range(14)]
+    seq = [seq[sched.randrange(len(seq))] for _ in range(60 if tier == "quick" else 300)]
+    for q in seq:
+        ask(z, q, "first thread")
+    st.bump("thread_forced_interleaving_zones")
+    # trace validation: the observed schedule (order of lock acquisitions per thread) is replayed on
+    # the Coq model of the cache (two parallel lists, IcalConcModel.run); the model must produce the
+    # same answers per thread and the same final cache content
+    if not bad:
+        tids, todos, outs, sched, nacq = {}, [], [], [], {}
+        for ev in events:
+            t = tids.setdefault(ev[1], len(tids))
+            if t == len(todos):
+                todos.append([])
+                outs.append([])
+            if ev[0] == "start":
+                todos[t].append(ev[2])
+                nacq[t] = 0
+            elif ev[0] == "acq":
+                nacq[t] += 1
+                sched += [t] if nacq[t] == 1 else [t, t]      # second acquisition: scan step + insert step
+            else:
+                outs[t].append(ev[2])
+        args = ec + [len(todos)]
+        for td in todos:
+            args += [len(td)] + [x for q in td for x in q]
+        mv = o.call(P.E_ICAL_CONC, args + sched)
+        want = []
+        for ou in outs:
+            want += [len(ou)] + [x for c in ou for x in (0, c)]
+        cache = [(P.secs_of(d), f, [i for i, x in enumerate(z._comps) if x is c][0])
+                 for ((d, f), c) in zip(z._cachedate, z._cachecomp)]
+        want += [len(cache)] + [x for e in cache for x in e]
+        st.evals += len(sched)
+        st.traces = getattr(st, "traces", 0) + 1
+        if mv != want:
+            st.model_diff += 1
+            verdict.violation({"kind": "correspondence: the observed interleaving replayed on the cache model "
+                                       "(two parallel lists under the lock) gives different answers or a "
+                                       "different final cache",
+                               "input": {"rule": r, "text": text, "threads": len(todos), "schedule": sched[:200]},
+                               "impl": want[:60], "model": mv[:60] if isinstance(mv, list) else mv},
+                              concrete=False)
+    # (2) free-running threads on a fresh shared object
+    if not bad and idx % 3 == 0:
+        z2 = build_ical(text)[0].get()
+        stop = time.time() + (0.25 if tier == "quick" else 1.0)
+        old = sys.getswitchinterval()
+        sys.setswitchinterval(1e-6)
+
+        def work(seed):
+            rr = C.rng("C17/stress/%d/%d" % (idx, seed))
+            while time.time() < stop and not bad:
+                ask(z2, pool[rr.randrange(len(pool))], "free-running thread %d" % seed)
+        try:
+            th = [threading.Thread(target=work, args=(i,)) for i in range(4)]
+            for t in th:
+                t.start()
+            for t in th:
+                t.join(60)
+        finally:
+            sys.setswitchinterval(old)
+        st.bump("thread_free_running_zones")
+    for b in bad:
+        st.spec_diff += 1
+        verdict.violation({"kind": "one tzical zone object shared by two threads: an answer differs from the "
+                                   "single-threaded answer",
+                           "input": {"rule": r, "text": text, "order": order, "wall": b["query"][0],
+                                     "fold": b["query"][1], "threads": True, "who": b["who"],
+                                     "wall_iso": b["wall_iso"]},
+                           "impl": b["impl"], "model": b["single_threaded"], "tzstr_impl": b["tzstr_impl"]})
+
+
+# ---------------------------------------------------------------------------------------------
+# zones whose STANDARD offset changes between two eras: outside the C17 theorems (constant standard
+# offset); kept in a stream of their own.  Implementation vs model must still agree; differences
+# from the piecewise POSIX truth next to the change belong to the open finding
+# F-C04-tzical-std-change of the tzfile area (not duplicated here).
+
+OTHER_FINDING = "F-C04-tzical-std-change"
+
+
+def other_finding_open():
+    try:
+        data = json.load(open(os.path.join(C.VERIF, "known_findings.json")))
+    except Exception:
+        return False
+    return any(f.get("id") == OTHER_FINDING and f.get("status") == "open" for f in data.get("findings", []))
+
+
+def check_std_change(verdict, st, o, r, rng, idx, tier):
+    ds = r["dst"]
+    shift = rng.choice([3600, -3600, 1800])
+    if not (-86400 < r["off"] + shift < 86400 and -86400 < ds["off"] + shift < 86400):
+        shift = -shift if -86400 < ds["off"] - shift < 86400 and -86400 < r["off"] - shift else 0
+    if shift == 0:
+        return
+    r2 = {"name": r["name"], "off": r["off"] + shift,
+          "dst": dict(ds, off=ds["off"] + shift)}
+    yc = Y0 + 5                                   # era 2 starts with the END event of year yc - 1
+    years = list(range(Y0, Y0 + NYEARS_MODEL))
+    dl, sd = local_onsets(o, r, years)            # local readings do not depend on the era
+    k = yc - Y0
+    tchange = sd[k - 1] - ds["off"]
+    d1 = [x for x in dl if x - r["off"] < tchange]
+    d2 = [x for x in dl if x - r["off"] >= tchange]
+    comps = [(d1, r["off"], ds["off"], True, ds["name"]),
+             (sd[:k - 1], ds["off"], r["off"], False, r["name"]),
+             ([sd[k - 1]], ds["off"], r2["off"], False, r["name"]),
+             (d2, r2["off"], r2["dst"]["off"], True, ds["name"]),
+             (sd[k:], r2["dst"]["off"], r2["off"], False, r["name"])]
+    lines = ["BEGIN:VTIMEZONE", "TZID:Era/Change"]
+    for (ons, fr, to, isd, nm) in comps:
+        kind = "DAYLIGHT" if isd else "STANDARD"
+        lines += ["BEGIN:" + kind, "DTSTART:" + fmt_dt(ons[0])]
+        if len(ons) > 1:
+            lines.append("RDATE:" + ",".join(fmt_dt(x) for x in ons[1:]))
+        lines += ["TZOFFSETFROM:" + fmt_off(fr), "TZOFFSETTO:" + fmt_off(to), "TZNAME:" + nm, "END:" + kind]
+    lines.append("END:VTIMEZONE")
+    text = "\r\n".join(lines) + "\r\n"
+    ic, status = build_ical(text)
+    if ic is None:
+        verdict.violation({"kind": "well-formed VTIMEZONE rejected", "input": {"text": text, "rule": r},
+                           "impl": status})
+        return
+    z = ic.get()
+    us = []
+    for y in (yc - 2, yc - 1, yc, yc + 1):
+        for ev in o.call(P.E_EVENTS, P.enc_posix(r) + [y]) + o.call(P.E_EVENTS, P.enc_posix(r2) + [y]):
+            us += [ev + d for d in (-1800, -1, 0, 1, 1800)]
+    us += [tchange + d for d in (-2 * 86400, -7200, -3600, -1800, -1, 0, 1, 1800, 3600, 7200, 2 * 86400)]
+    first = min(dl[0] - r["off"], sd[0] - ds["off"])
+    us = sorted(set(u for u in us if u >= first + P.DAY))
+    ec = enc_comps(comps)
+    m_u = P.dec_ical_utc(o.call(P.E_ICAL_UTC, ec + us), len(us))
+    t1 = P.dec_spec_utc(o.call(P.E_SPEC_UTC, P.enc_posix(r) + us), len(us))
+    t2 = P.dec_spec_utc(o.call(P.E_SPEC_UTC, P.enc_posix(r2) + us), len(us))
+    g = o.call(P.E_GUARDS, P.enc_posix(r))
+    g2 = o.call(P.E_GUARDS, P.enc_posix(r2))
+    in_guard = bool(g[0]) and bool(g[1]) and bool(g2[0]) and bool(g2[1])
+    st.bump("std_offset_change_zones")
+    routed = other_finding_open()
+    for i, u in enumerate(us):
+        iu = P.impl_obs_utc(z, u)
+        st.evals += 1
+        if iu != m_u[i]:
+            st.model_diff += 1
+            verdict.violation({"kind": "correspondence: tzical zone differs from the model (UTC instant)",
+                               "input": {"rule": r, "text": text, "utc": u, "std_offset_change": shift},
+                               "impl": iu, "model": m_u[i]}, concrete=False)
+            continue
+        truth = t1[i] if u < tchange else t2[i]
+        if in_guard and (iu[0] != 0 or [iu[3], iu[4], iu[5]] != truth or iu[1] != u + truth[0]):
+            near = abs(u - tchange) <= P.DAY
+            if near and routed:
+                st.bump("routed_to_" + OTHER_FINDING)
+            else:
+                verdict.violation({"kind": "tzical zone with a changing standard offset differs from the piecewise "
+                                           "POSIX truth" + ("" if near else " away from the change"),
+                                   "input": {"rule": r, "text": text, "utc": u, "std_offset_change": shift,
+                                             "utc_iso": P.dt_of(u).isoformat()}, "impl": iu, "spec": truth},
+                                  concrete=not near)
+
+
 def check_parse(verdict, st, o, lines, cls, expect_valueerror=None):
     text = "\r\n".join(lines)
     ic, status = build_ical(text)
@@ -512,6 +780,14 @@ def main():
             if tier == "quick" and time.time() - t_stream > 100:
                 st.bump("zone_stream_cut_by_budget_at", k)
                 break
+        # ---- one zone object shared by several threads
+        pos = [r for r in rules if r["dst"]["off"] > r["off"]]
+        for k, r in enumerate(pos[:(10 if tier == "quick" else 120)]):
+            check_threads(verdict, st, o, r, rng, k, tier)
+        # ---- standard offset changing between two eras (own stream, see check_std_change)
+        for k, r in enumerate(pos[10:(18 if tier == "quick" else 150)]):
+            if r["dst"]["start"][1] < 100 * 3600 and r["dst"]["end"][1] < 100 * 3600:
+                check_std_change(verdict, st, o, r, rng, k, tier)
         # ---- parser stream
         years = list(range(Y0, Y0 + 4))
         for k, r in enumerate(rules[:(120 if tier == "quick" else 2000)]):
@@ -603,6 +879,7 @@ def main():
         "model_vs_impl_disagreements": st.model_diff,
         "spec_vs_impl_disagreements": st.spec_diff,
         "exhaustive": False,
+        "traces_validated_against_impl": getattr(st, "traces", 0),
         "partial_theorems": [t for t in props["theorems"] if t.endswith("_partial")],
         "differential_only": ["RRULE text -> onset list (rrulestr + rrule are another area's models): exercised "
                               "by the correspondence only", "str.splitlines", "non-ASCII text"],
